@@ -148,3 +148,89 @@ Definition binary_indices (lb : list (list nat)) (zero one : nat) : option (list
       let '(ix2, _) := take_while r3 bg p3 in Some (ix1 ++ ix2)
     end
   end.
+
+(* binarySubProblem(data, zeroClass, oneClass): the batches of the two runs found by [binary_indices],
+   shared into a new dataset (indexedSubset on both containers), labels mapped by (label == oneClass);
+   None = SHARK_RUNTIME_CHECK "class does not exist" *)
+Definition binary_relabel (one l : nat) : nat := if l =? one then 1 else 0.
+Definition binary_sub_problem {I} (zero one : nat) (d : labeled I nat) : option (labeled I nat) :=
+  match binary_indices (labels d) zero one with
+  | None => None
+  | Some ix =>
+    match indexed_subset ix (inputs d), indexed_subset ix (labels d) with
+    | Some a, Some b => Some (mkL a (transform (binary_relabel one) b))
+    | _, _ => None
+    end
+  end.
+
+(* ---- DataView: one index triple (batch, positionInBatch, datasetIndex) per element ---- *)
+Definition vindex := (nat * nat * nat)%type.
+Definition vi_dataset_index (e : vindex) : nat := snd e.
+
+(* DataView(dataset): the two nested loops over batches and batch elements *)
+Fixpoint view_batches {A} (d : @data A) (b pos : nat) : list vindex :=
+  match d with
+  | [] => []
+  | x :: r => map (fun j => (b, j, pos + j)) (seq 0 (length x)) ++ view_batches r (S b) (pos + length x)
+  end.
+Definition view_of {A} (d : @data A) : list vindex := view_batches d 0 0.
+
+(* DataView(view, indices) = subset(view, indices): m_indices[i] = view.m_indices[indices[i]] *)
+Definition view_subset (v : list vindex) (idx : list nat) : option (list vindex) :=
+  if forallb (fun i => i <? length v) idx then Some (map (fun i => nth i v (0, 0, 0)) idx) else None.
+
+(* view[position] = getBatchElement(dataset.batch(index.batch), index.positionInBatch) *)
+Definition view_get {A} (d : @data A) (e : vindex) : option A :=
+  let '(b, j, _) := e in nth_error (nth b d []) j.
+
+Fixpoint all_some {A} (l : list (option A)) : option (list A) :=
+  match l with
+  | [] => Some []
+  | None :: _ => None
+  | Some x :: r => match all_some r with Some t => Some (x :: t) | None => None end
+  end.
+
+(* toDataset(view, batchSize): empty view -> empty dataset; otherwise batches by initializeBatches,
+   filled by std::copy in view order *)
+Definition to_dataset {A} (d : @data A) (v : list vindex) (bs : nat) : option (@data A) :=
+  match v with
+  | [] => Some []
+  | _ => match all_some (map (view_get d) v) with
+         | Some l => Some (chunk (init_sizes (length v) bs) l)
+         | None => None
+         end
+  end.
+
+(* ---- repartitionByClass: the loops as written (prefix sums of the class counts, then one pass that
+   writes the running position of every element into the slot of its class) ---- *)
+Fixpoint prefix_starts (counts : list nat) (acc : nat) : list nat :=
+  match counts with
+  | [] => []
+  | c :: r => acc :: prefix_starts r (acc + c)
+  end.
+Fixpoint scatter_classes (ls : list nat) (index : nat) (classIndex elemIndex : list nat) : list nat :=
+  match ls with
+  | [] => elemIndex
+  | c :: r => scatter_classes r (S index) (upd c (S (nth c classIndex 0)) classIndex)
+                              (upd (nth c classIndex 0) index elemIndex)
+  end.
+Definition class_order_loop (ls : list nat) : list nat :=
+  scatter_classes ls 0 (prefix_starts (class_sizes ls) 0) (repeat 0 (length ls)).
+
+(* repartitionByClass with the gather index computed by the loops *)
+Definition repartition_by_class_loop {I} (dI : I) (m : nat) (d : labeled I nat) : option (labeled I nat) :=
+  let ls := elems (labels d) in
+  match batch_partitioning (class_sizes ls) m 0 with
+  | None => None
+  | Some (_, part) =>
+    match repartition part (inputs d), repartition part (labels d) with
+    | Some a, Some b =>
+      let idx := class_order_loop ls in
+      match reorder dI idx a, reorder 0 idx b with
+      | Some a', Some b' => Some (mkL a' b')
+      | _, _ => None
+      end
+    | _, _ => None
+    end
+  end.
+
